@@ -11,7 +11,17 @@ def sub_strategy(S):
     seq = st.lists(small, max_size=4)
     hseq = st.lists(hsh, max_size=4)
     mk = lambda base, inner: st.tuples(variants, inner).map(lambda p: ['sub', base, p[0], p[1]])
+    plain_sub = st.one_of(
+        st.tuples(variants, st.lists(S['leaf'], max_size=2)).map(lambda p: ['sub', 'list', p[0], ['list', p[1]]]),
+        st.tuples(variants, S['r_str']).map(lambda p: ['sub', 'str', p[0], p[1]]),
+        st.tuples(variants, S['r_int']).map(lambda p: ['sub', 'int', p[0], p[1]]),
+        st.sampled_from(vtypes.INT_ENUM_VALUES).map(lambda v: ['sub', 'int', 'enum', ['int', v]]),
+    )
+    nested_seq = st.lists(st.one_of(small, plain_sub), max_size=3)
     return st.one_of(
+        mk('list', nested_seq.map(lambda xs: ['list', xs])),
+        mk('tuple', nested_seq.map(lambda xs: ['tuple', xs])),
+        mk('dict', st.lists(st.tuples(hsh, st.one_of(small, plain_sub)).map(list), max_size=3).map(lambda kv: ['dict', kv])),
         mk('list', seq.map(lambda xs: ['list', xs])),
         mk('tuple', seq.map(lambda xs: ['tuple', xs])),
         mk('set', hseq.map(lambda xs: ['set', xs])),
